@@ -1,49 +1,1162 @@
-//! C14 scratch experiment (to be replaced by the harness)
-use arrow_array::{Int32Array, RecordBatch};
+//! C14 correspondence harness: incremental decoders (IPC StreamDecoder, JSON Decoder, CSV Decoder)
+//! are independent of how the input is chunked.
+//!
+//! Case lines (all self-contained):
+//!   C14 ipc  <stream-hex> <chunk sizes> <table off:len:kind:bodyLen:rows,…>   model + oracle
+//!   C14 ipcx <stream-hex> <chunk sizes>                                        oracle only (corrupted bytes)
+//!   C14 json <mode v|s|f> <batch_size> <bytes-hex> <chunk sizes>               model (tape) + oracle
+//!   C14 csv  <batch_size> <header 0|1> <ncols> <bytes-hex> <chunk sizes>       oracle only
+//! Chunk sizes sum to the input length; 0 = an empty chunk.
+//!
+//! For every case the real push decoder is run (1) with the chunking of the case line,
+//! (2) with the whole input as one chunk, (3) one byte at a time, (4) at every single split
+//! point (inputs up to a size limit), (5) for short inputs with all 2^(n-1) partitions, and
+//! (6) through the one-shot pull reader.  Oracle: identical batches (==), schema and outcome,
+//! and no batch larger than the batch size.  The answer line (compared with the Lean model) is
+//! computed from run (1).
+use arrow_array::{
+    Array, ArrayRef, BooleanArray, DictionaryArray, Float64Array, Int32Array, Int64Array, RecordBatch, StringArray,
+    types::Int8Type,
+};
 use arrow_buffer::Buffer;
 use arrow_ipc::reader::{StreamDecoder, StreamReader};
 use arrow_ipc::writer::StreamWriter;
-use arrow_schema::{DataType, Field, Schema};
+use arrow_schema::{ArrowError, DataType, Field, Schema, SchemaRef};
+use std::io::{BufRead, Read};
 use std::sync::Arc;
+use vcommon::*;
 
-fn main() {
-    let schema = Arc::new(Schema::new(vec![Field::new("a", DataType::Int32, true)]));
-    let b0 = RecordBatch::try_new(schema.clone(), vec![Arc::new(Int32Array::from(Vec::<i32>::new()))]).unwrap();
-    let b1 = RecordBatch::try_new(schema.clone(), vec![Arc::new(Int32Array::from(vec![1, 2, 3]))]).unwrap();
-    for (name, batches) in [("empty-last", vec![b1.clone(), b0.clone()]), ("nonempty-last", vec![b1.clone()]), ("schema-only", vec![])] {
-        let mut buf = Vec::new();
-        {
-            let mut w = StreamWriter::try_new(&mut buf, &schema).unwrap();
-            for b in &batches {
-                w.write(b).unwrap();
+// ------------------------------------------------------------------------------------------ util
+
+fn split<'a>(data: &'a [u8], sizes: &[usize]) -> Vec<&'a [u8]> {
+    let mut out = vec![];
+    let mut p = 0;
+    for &n in sizes {
+        out.push(&data[p..p + n]);
+        p += n;
+    }
+    assert_eq!(p, data.len(), "chunk sizes must sum to the input length");
+    out
+}
+
+/// all compositions of n (n >= 1) as chunk-size lists; 2^(n-1) of them
+fn all_partitions(n: usize) -> Vec<Vec<usize>> {
+    if n == 0 {
+        return vec![vec![]];
+    }
+    let mut out = vec![];
+    for mask in 0u32..(1u32 << (n - 1)) {
+        let mut sizes = vec![];
+        let mut cur = 1;
+        for i in 0..n - 1 {
+            if mask >> i & 1 == 1 {
+                sizes.push(cur);
+                cur = 1;
+            } else {
+                cur += 1;
             }
-            w.finish().unwrap();
         }
-        println!("{name}: total {} bytes, tail {:?}", buf.len(), &buf[buf.len() - 8..]);
-        let no_eos = &buf[..buf.len() - 8];
-        // pull reader
-        let r = StreamReader::try_new(std::io::Cursor::new(no_eos.to_vec()), None);
-        match r {
-            Ok(r) => {
-                let rows: Vec<_> = r.map(|b| b.map(|b| b.num_rows()).map_err(|e| e.to_string())).collect();
-                println!("  pull: {:?}", rows);
-            }
-            Err(e) => println!("  pull: ERR {e}"),
+        sizes.push(cur);
+        out.push(sizes);
+    }
+    out
+}
+
+fn err_class(e: &ArrowError) -> &'static str {
+    match e {
+        ArrowError::IpcError(_) => "ipc",
+        ArrowError::ParseError(_) => "parse",
+        ArrowError::JsonError(_) => "json",
+        ArrowError::CsvError(_) => "csv",
+        ArrowError::InvalidArgumentError(_) => "invalid-arg",
+        ArrowError::SchemaError(_) => "schema",
+        ArrowError::ComputeError(_) => "compute",
+        ArrowError::CastError(_) => "cast",
+        ArrowError::MemoryError(_) => "memory",
+        ArrowError::IoError(_, _) => "io",
+        _ => "other",
+    }
+}
+
+/// a BufRead that hands out the input in the given chunks (empty chunks are skipped: an empty
+/// `fill_buf` means EOF by contract)
+struct ChunkedRead<'a> {
+    chunks: Vec<&'a [u8]>,
+    idx: usize,
+    pos: usize,
+}
+impl<'a> ChunkedRead<'a> {
+    fn new(chunks: Vec<&'a [u8]>) -> Self {
+        ChunkedRead { chunks, idx: 0, pos: 0 }
+    }
+    fn skip(&mut self) {
+        while self.idx < self.chunks.len() && self.pos >= self.chunks[self.idx].len() {
+            self.idx += 1;
+            self.pos = 0;
         }
-        let mut d = StreamDecoder::new();
-        let mut x = Buffer::from(no_eos.to_vec());
-        let mut rows = vec![];
-        let mut err = None;
+    }
+}
+impl Read for ChunkedRead<'_> {
+    fn read(&mut self, out: &mut [u8]) -> std::io::Result<usize> {
+        let b = self.fill_buf()?;
+        let n = b.len().min(out.len());
+        out[..n].copy_from_slice(&b[..n]);
+        self.consume(n);
+        Ok(n)
+    }
+}
+impl BufRead for ChunkedRead<'_> {
+    fn fill_buf(&mut self) -> std::io::Result<&[u8]> {
+        self.skip();
+        if self.idx >= self.chunks.len() { Ok(&[]) } else { Ok(&self.chunks[self.idx][self.pos..]) }
+    }
+    fn consume(&mut self, n: usize) {
+        self.pos += n;
+    }
+}
+
+/// the observable result of a decoder run
+#[derive(Clone, Debug, PartialEq)]
+struct Outcome {
+    batches: Vec<RecordBatch>,
+    schema: Option<SchemaRef>,
+    verdict: String,
+}
+impl Outcome {
+    fn rows(&self) -> Vec<usize> {
+        self.batches.iter().map(|b| b.num_rows()).collect()
+    }
+    fn short(&self) -> String {
+        format!("rows={} schema={} r={}", show_list(&self.rows()), self.schema.is_some() as u8, self.verdict)
+    }
+}
+
+// ------------------------------------------------------------------------------------------- IPC
+
+fn ipc_push(chunks: &[&[u8]]) -> Outcome {
+    let mut d = StreamDecoder::new();
+    let mut batches = vec![];
+    let mut verdict = None;
+    'outer: for c in chunks {
+        let mut x = Buffer::from(c.to_vec());
+        // documented caller loop
         while !x.is_empty() {
             match d.decode(&mut x) {
-                Ok(Some(b)) => rows.push(b.num_rows()),
+                Ok(Some(b)) => batches.push(b),
                 Ok(None) => {}
                 Err(e) => {
-                    err = Some(e.to_string());
+                    verdict = Some(format!("ERR:decode:{}", err_class(&e)));
+                    break 'outer;
+                }
+            }
+        }
+        if c.is_empty() {
+            // an empty buffer may also be handed to decode directly
+            match d.decode(&mut x) {
+                Ok(None) => {}
+                Ok(Some(_)) => verdict = Some("ERR:batch-from-empty".into()),
+                Err(e) => verdict = Some(format!("ERR:decode:{}", err_class(&e))),
+            }
+            if verdict.is_some() {
+                break 'outer;
+            }
+        }
+    }
+    let verdict = verdict.unwrap_or_else(|| match d.finish() {
+        Ok(()) => "ok".into(),
+        Err(_) => "ERR:finish".into(),
+    });
+    Outcome { batches, schema: d.schema(), verdict }
+}
+
+fn ipc_pull(data: &[u8]) -> Outcome {
+    match StreamReader::try_new(std::io::Cursor::new(data.to_vec()), None) {
+        Err(e) => Outcome { batches: vec![], schema: None, verdict: format!("ERR:open:{}", err_class(&e)) },
+        Ok(r) => {
+            let schema = Some(r.schema());
+            let mut batches = vec![];
+            let mut verdict = "ok".to_string();
+            for b in r {
+                match b {
+                    Ok(b) => batches.push(b),
+                    Err(e) => {
+                        verdict = format!("ERR:read:{}", err_class(&e));
+                        break;
+                    }
+                }
+            }
+            Outcome { batches, schema, verdict }
+        }
+    }
+}
+
+struct Piece {
+    prefix: Vec<u8>, // continuation marker + length
+    md: Vec<u8>,
+    body: Vec<u8>,
+    kind: u8,
+    rows: i64,
+}
+
+/// frame the *writer's* output (trusted) into messages; uses only the flatbuffers API
+fn ipc_pieces(stream: &[u8]) -> Vec<Piece> {
+    let mut out = vec![];
+    let mut p = 0;
+    while p + 8 <= stream.len() {
+        assert_eq!(&stream[p..p + 4], &[0xff; 4]);
+        let len = u32::from_le_bytes(stream[p + 4..p + 8].try_into().unwrap()) as usize;
+        if len == 0 {
+            break;
+        }
+        let md = &stream[p + 8..p + 8 + len];
+        let m = arrow_ipc::root_as_message(md).expect("writer output");
+        let bl = m.bodyLength() as usize;
+        let rows = m.header_as_record_batch().map(|b| b.length()).unwrap_or(0);
+        out.push(Piece {
+            prefix: stream[p..p + 8].to_vec(),
+            md: md.to_vec(),
+            body: stream[p + 8 + len..p + 8 + len + bl].to_vec(),
+            kind: m.header_type().0,
+            rows,
+        });
+        p += 8 + len + bl;
+    }
+    out
+}
+
+fn gen_ipc_batches(rng: &mut Rng) -> (SchemaRef, Vec<RecordBatch>) {
+    let which = rng.below(5);
+    let nb = *rng.pick(&[0usize, 1, 1, 2, 3]);
+    let mut mk: Box<dyn FnMut(&mut Rng, usize) -> Vec<ArrayRef>> = match which {
+        0 => Box::new(|rng, n| vec![Arc::new(Int32Array::from((0..n).map(|_| rng.range(-5, 5) as i32).collect::<Vec<_>>())) as ArrayRef]),
+        1 => Box::new(|rng, n| {
+            vec![
+                Arc::new(Int64Array::from((0..n).map(|_| if rng.chance(1, 4) { None } else { Some(rng.range(-9, 9)) }).collect::<Vec<_>>())) as ArrayRef,
+                Arc::new(StringArray::from((0..n).map(|_| if rng.chance(1, 4) { None } else { Some("x".repeat(rng.usize(4))) }).collect::<Vec<_>>())) as ArrayRef,
+            ]
+        }),
+        2 => Box::new(|rng, n| vec![Arc::new(BooleanArray::from((0..n).map(|_| Some(rng.bool())).collect::<Vec<_>>())) as ArrayRef]),
+        3 => Box::new(|rng, n| {
+            let vals: Vec<&str> = (0..n).map(|_| *rng.pick(&["a", "bb", "ccc"])).collect();
+            let d: DictionaryArray<Int8Type> = vals.into_iter().collect();
+            vec![Arc::new(d) as ArrayRef]
+        }),
+        _ => Box::new(|rng, n| vec![Arc::new(Float64Array::from((0..n).map(|_| rng.range(-3, 3) as f64 * 0.5).collect::<Vec<_>>())) as ArrayRef]),
+    };
+    let fields: Vec<Field> = match which {
+        0 => vec![Field::new("a", DataType::Int32, false)],
+        1 => vec![Field::new("a", DataType::Int64, true), Field::new("s", DataType::Utf8, true)],
+        2 => vec![Field::new("b", DataType::Boolean, true)],
+        3 => vec![Field::new("d", DataType::Dictionary(Box::new(DataType::Int8), Box::new(DataType::Utf8)), true)],
+        _ => vec![Field::new("f", DataType::Float64, true)],
+    };
+    let schema = Arc::new(Schema::new(fields));
+    let mut batches = vec![];
+    for _ in 0..nb {
+        let n = *rng.pick(&[0usize, 0, 1, 2, 3, 5, 9]);
+        batches.push(RecordBatch::try_new(schema.clone(), mk(rng, n)).unwrap());
+    }
+    (schema, batches)
+}
+
+fn write_ipc(schema: &SchemaRef, batches: &[RecordBatch]) -> Vec<u8> {
+    let mut buf = Vec::new();
+    {
+        let mut w = StreamWriter::try_new(&mut buf, schema).unwrap();
+        for b in batches {
+            w.write(b).unwrap();
+        }
+        w.finish().unwrap();
+    }
+    buf
+}
+
+/// random chunk sizes for an input of length n; `style` picks the flavour
+fn gen_chunks(rng: &mut Rng, n: usize, boundaries: &[usize]) -> (Vec<usize>, &'static str) {
+    let style = rng.below(8);
+    let mut cuts: Vec<usize> = vec![];
+    let name;
+    match style {
+        0 => {
+            name = "ch:single";
+        }
+        1 => {
+            name = "ch:bytes";
+            cuts = (1..n).collect();
+        }
+        2 => {
+            name = "ch:one-split";
+            if n > 0 {
+                cuts.push(rng.usize(n + 1));
+            }
+        }
+        3 | 4 => {
+            // at / next to structure boundaries
+            name = "ch:boundary";
+            for &b in boundaries {
+                if rng.chance(2, 3) {
+                    let d = rng.range(-2, 2);
+                    let c = (b as i64 + d).clamp(0, n as i64) as usize;
+                    cuts.push(c);
+                }
+            }
+        }
+        5 => {
+            name = "ch:fixed";
+            let k = 1 + rng.usize(9);
+            cuts = (1..n).filter(|i| i % k == 0).collect();
+        }
+        _ => {
+            name = "ch:random";
+            let k = rng.usize(8) + 1;
+            for _ in 0..k {
+                cuts.push(rng.usize(n + 1));
+            }
+        }
+    }
+    // empty chunks: duplicate some cut points / add 0 and n
+    if rng.chance(1, 2) {
+        let extra = rng.usize(3) + 1;
+        for _ in 0..extra {
+            let c = if cuts.is_empty() || rng.chance(1, 3) { *rng.pick(&[0, n]) } else { *rng.pick(&cuts) };
+            cuts.push(c);
+        }
+    }
+    cuts.sort();
+    let mut sizes = vec![];
+    let mut p = 0;
+    for c in cuts {
+        sizes.push(c - p);
+        p = c;
+    }
+    sizes.push(n - p);
+    (sizes, name)
+}
+
+fn ipc_answer(o: &Outcome) -> String {
+    format!("b={} s={} r={}", show_list(&o.rows()), o.schema.is_some() as u8, o.verdict)
+}
+
+/// compare a run against the reference run of the same input
+fn same(a: &Outcome, b: &Outcome) -> bool {
+    a.verdict == b.verdict && a.schema == b.schema && a.batches == b.batches
+}
+
+fn ipc_oracles(data: &[u8], sizes: &[usize], given: &Outcome, fails: &mut Vec<(String, String)>, every_split: bool) {
+    let single = ipc_push(&[data]);
+    if !same(given, &single) {
+        fails.push((format!("chunked {} != single-chunk {}", given.short(), single.short()), "oracle:chunk-dep".into()));
+    }
+    let bytes: Vec<&[u8]> = data.chunks(1).collect();
+    let bw = ipc_push(&bytes);
+    if !same(&bw, &single) {
+        fails.push((format!("bytewise {} != single-chunk {}", bw.short(), single.short()), "oracle:chunk-dep".into()));
+    }
+    if every_split {
+        for i in 0..=data.len() {
+            let o = ipc_push(&[&data[..i], &data[i..]]);
+            if !same(&o, &single) {
+                fails.push((format!("split@{} {} != single-chunk {}", i, o.short(), single.short()), "oracle:chunk-dep".into()));
+                break;
+            }
+        }
+    }
+    let _ = sizes;
+    // one-shot pull reader: same batches; the pull reader reports problems as read errors, the
+    // push decoder as decode/finish errors: compare ok-ness and the batches delivered
+    let pull = ipc_pull(data);
+    let ok_push = single.verdict == "ok";
+    let ok_pull = pull.verdict == "ok";
+    if single.batches != pull.batches || ok_push != ok_pull || (ok_push && single.schema != pull.schema) {
+        // the pull reader ignores bytes after the EOS marker (it stops reading); not a row difference
+        let trailing_only = single.batches == pull.batches && single.verdict == "ERR:decode:ipc" && ok_pull && single.schema == pull.schema;
+        if !trailing_only {
+            fails.push((format!("push {} != pull {}", single.short(), pull.short()), "oracle:push-vs-pull".into()));
+        }
+    }
+}
+
+fn run_ipc(t: &[&str], fails: &mut Vec<(String, String)>) -> String {
+    let data = unhex(t[2]);
+    let sizes: Vec<usize> = parse_list(t[3]);
+    let chunks = split(&data, &sizes);
+    let given = ipc_push(&chunks);
+    ipc_oracles(&data, &sizes, &given, fails, data.len() <= 1500);
+    ipc_answer(&given)
+}
+
+fn gen_ipc(rng: &mut Rng) -> (String, String) {
+    let (schema, batches) = gen_ipc_batches(rng);
+    let stream = write_ipc(&schema, &batches);
+    let pieces = ipc_pieces(&stream);
+    // plan: a sequence of piece indices, then EOS handling, truncation, legacy markers
+    let mut plan: Vec<usize> = (0..pieces.len()).collect();
+    let mut tags = vec!["op:ipc".to_string()];
+    let nrec: Vec<usize> = (0..pieces.len()).filter(|&i| pieces[i].kind == 3).collect();
+    match rng.below(10) {
+        0 if !nrec.is_empty() => {
+            let i = *rng.pick(&nrec);
+            plan.retain(|&x| x != i);
+            tags.push("mut:drop-batch".into());
+        }
+        1 if !nrec.is_empty() => {
+            let i = *rng.pick(&nrec);
+            let pos = plan.iter().position(|&x| x == i).unwrap();
+            plan.insert(pos, i);
+            tags.push("mut:dup-batch".into());
+        }
+        2 => {
+            let pos = rng.usize(plan.len() + 1);
+            plan.insert(pos.max(1), 0);
+            tags.push("mut:dup-schema".into());
+        }
+        3 if plan.len() > 1 && pieces[1].kind == 3 => {
+            plan.swap(0, 1);
+            tags.push("mut:batch-before-schema".into());
+        }
+        _ => {}
+    }
+    let legacy = rng.below(6); // 0: strip all markers, 1: strip some
+    let mut out: Vec<u8> = vec![];
+    let mut table = vec![];
+    let mut boundaries = vec![];
+    let early_eos = if rng.chance(1, 10) { Some(rng.usize(plan.len() + 1)) } else { None };
+    for (k, &i) in plan.iter().enumerate() {
+        if early_eos == Some(k) {
+            out.extend_from_slice(&[0xff, 0xff, 0xff, 0xff, 0, 0, 0, 0]);
+            tags.push("mut:early-eos".into());
+        }
+        let p = &pieces[i];
+        boundaries.push(out.len());
+        if legacy == 0 || (legacy == 1 && rng.bool()) {
+            out.extend_from_slice(&p.prefix[4..]);
+            tags.push("legacy-prefix".into());
+        } else {
+            out.extend_from_slice(&p.prefix);
+        }
+        boundaries.push(out.len());
+        table.push(format!("{}:{}:{}:{}:{}", out.len(), p.md.len(), p.kind, p.body.len(), p.rows));
+        out.extend_from_slice(&p.md);
+        boundaries.push(out.len());
+        out.extend_from_slice(&p.body);
+        if p.body.is_empty() {
+            tags.push("empty-body".into());
+        }
+    }
+    boundaries.push(out.len());
+    let last_empty_body = plan.last().map(|&i| pieces[i].body.is_empty()).unwrap_or(false);
+    match rng.below(8) {
+        0 => {
+            tags.push("end:no-eos".into());
+            if last_empty_body && early_eos.is_none() {
+                tags.push("finding:ipc-pending-empty-body".into());
+            }
+        }
+        1 => {
+            out.extend_from_slice(&[0xff, 0xff, 0xff, 0xff, 0, 0, 0, 0]);
+            let n = 1 + rng.usize(9);
+            out.extend(rng.bytes(n));
+            tags.push("end:trailing".into());
+        }
+        2 => {
+            out.extend_from_slice(&[0, 0, 0, 0]);
+            tags.push("end:legacy-eos".into());
+        }
+        3 => {
+            out.extend_from_slice(&[0xff, 0xff, 0xff, 0xff, 0, 0, 0, 0]);
+            // truncate somewhere
+            let cut = if rng.bool() { rng.usize(out.len() + 1) } else { (*rng.pick(&boundaries) as i64 + rng.range(-3, 3)).clamp(0, out.len() as i64) as usize };
+            out.truncate(cut);
+            tags.push("end:truncated".into());
+        }
+        _ => {
+            out.extend_from_slice(&[0xff, 0xff, 0xff, 0xff, 0, 0, 0, 0]);
+            tags.push("end:eos".into());
+        }
+    }
+    boundaries.retain(|&b| b <= out.len());
+    let (sizes, chname) = gen_chunks(rng, out.len(), &boundaries);
+    tags.push(chname.into());
+    if sizes.iter().filter(|&&s| s > 0).count() >= 2 {
+        tags.push("nt".into());
+    }
+    if sizes.contains(&0) {
+        tags.push("empty-chunk".into());
+    }
+    tags.sort();
+    tags.dedup();
+    (format!("C14 ipc {} {} {}", hex(&out), show_list(&sizes), show_list(&table)), tags.join(" "))
+}
+
+fn run_ipcx(t: &[&str], fails: &mut Vec<(String, String)>) -> String {
+    let data = unhex(t[2]);
+    let sizes: Vec<usize> = parse_list(t[3]);
+    let chunks = split(&data, &sizes);
+    // a corrupted length can make the decoder wait for gigabytes: that is fine, it never allocates ahead
+    let given = ipc_push(&chunks);
+    let single = ipc_push(&[&data]);
+    if !same(&given, &single) {
+        fails.push((format!("chunked {} != single-chunk {}", given.short(), single.short()), "oracle:chunk-dep".into()));
+    }
+    let bytes: Vec<&[u8]> = data.chunks(1).collect();
+    let bw = ipc_push(&bytes);
+    if !same(&bw, &single) {
+        fails.push((format!("bytewise {} != single-chunk {}", bw.short(), single.short()), "oracle:chunk-dep".into()));
+    }
+    ipc_answer(&given)
+}
+
+fn gen_ipcx(rng: &mut Rng) -> (String, String) {
+    let (schema, batches) = gen_ipc_batches(rng);
+    let mut stream = write_ipc(&schema, &batches);
+    let pieces = ipc_pieces(&stream);
+    let mut tags = vec!["op:ipcx".to_string()];
+    let mut boundaries = vec![];
+    let mut p = 0;
+    for pc in &pieces {
+        boundaries.push(p);
+        p += 8 + pc.md.len() + pc.body.len();
+    }
+    match rng.below(3) {
+        0 => {
+            // corrupt a length prefix byte
+            let b = *rng.pick(&boundaries) + 4 + rng.usize(2);
+            stream[b] = stream[b].wrapping_add(*rng.pick(&[1u8, 8, 0xf8, 0xff]));
+            tags.push("mut:len-prefix".into());
+        }
+        1 => {
+            let n = 1 + rng.usize(3);
+            for _ in 0..n {
+                let i = rng.usize(stream.len());
+                stream[i] ^= 1 << rng.usize(8);
+            }
+            tags.push("mut:bitflip".into());
+        }
+        _ => {
+            // corrupt inside a metadata flatbuffer
+            let k = rng.usize(pieces.len());
+            let off = boundaries[k] + 8 + rng.usize(pieces[k].md.len());
+            stream[off] = rng.next_u64() as u8;
+            tags.push("mut:metadata".into());
+        }
+    }
+    let (sizes, chname) = gen_chunks(rng, stream.len(), &boundaries);
+    tags.push(chname.into());
+    if sizes.iter().filter(|&&s| s > 0).count() >= 2 {
+        tags.push("nt".into());
+    }
+    (format!("C14 ipcx {} {}", hex(&stream), show_list(&sizes)), tags.join(" "))
+}
+
+// ------------------------------------------------------------------------------------------ JSON
+
+fn json_builder(mode: &str, batch_size: usize) -> arrow_json::ReaderBuilder {
+    match mode {
+        // any top-level value as a string column (numbers / booleans coerced to their text)
+        "v" | "f" => arrow_json::ReaderBuilder::new_with_field(Field::new("item", DataType::Utf8, true))
+            .with_coerce_primitive(true)
+            .with_ignore_type_conflicts(true)
+            .with_flatten(mode == "f")
+            .with_batch_size(batch_size),
+        // objects with a fixed, type-tolerant schema
+        _ => {
+            let schema = Arc::new(Schema::new(vec![
+                Field::new("a", DataType::Int64, true),
+                Field::new("b", DataType::Utf8, true),
+                Field::new("c", DataType::List(Arc::new(Field::new("item", DataType::Utf8, true))), true),
+                Field::new("d", DataType::Struct(vec![Field::new("e", DataType::Boolean, true)].into()), true),
+                Field::new("f", DataType::Float64, true),
+            ]));
+            arrow_json::ReaderBuilder::new(schema)
+                .with_coerce_primitive(true)
+                .with_ignore_type_conflicts(true)
+                .with_batch_size(batch_size)
+        }
+    }
+}
+
+/// push protocol: decode; when it stops short of the chunk the batch is full: flush and go on
+fn json_push(mode: &str, batch_size: usize, chunks: &[&[u8]]) -> Outcome {
+    let mut d = json_builder(mode, batch_size).build_decoder().unwrap();
+    let mut batches = vec![];
+    for c in chunks {
+        let mut rest: &[u8] = c;
+        loop {
+            match d.decode(rest) {
+                Ok(n) => {
+                    rest = &rest[n..];
+                    if rest.is_empty() {
+                        break;
+                    }
+                    match d.flush() {
+                        Ok(Some(b)) => batches.push(b),
+                        Ok(None) => {
+                            return Outcome { batches, schema: None, verdict: "ERR:stall".into() };
+                        }
+                        Err(_) => return Outcome { batches, schema: None, verdict: "ERR:flush".into() },
+                    }
+                }
+                Err(_) => return Outcome { batches, schema: None, verdict: "ERR:decode".into() },
+            }
+        }
+    }
+    let verdict = match d.flush() {
+        Ok(Some(b)) => {
+            batches.push(b);
+            "ok"
+        }
+        Ok(None) => "ok",
+        Err(_) => "ERR:flush",
+    };
+    Outcome { batches, schema: None, verdict: verdict.into() }
+}
+
+fn json_pull(mode: &str, batch_size: usize, chunks: Vec<&[u8]>) -> Outcome {
+    let r = json_builder(mode, batch_size).build(ChunkedRead::new(chunks)).unwrap();
+    let mut batches = vec![];
+    let mut verdict = "ok".to_string();
+    for b in r {
+        match b {
+            Ok(b) => batches.push(b),
+            Err(_) => {
+                verdict = "ERR".into();
+                break;
+            }
+        }
+    }
+    Outcome { batches, schema: None, verdict }
+}
+
+fn json_answer(mode: &str, o: &Outcome) -> String {
+    let mut s = format!("rows={} r={}", show_list(&o.rows()), o.verdict);
+    if mode != "s" {
+        // the decoded values themselves: hex of each string, `N` for null
+        let mut vals = vec![];
+        for b in &o.batches {
+            let col = b.column(0).as_any().downcast_ref::<StringArray>().unwrap();
+            for i in 0..col.len() {
+                vals.push(if col.is_null(i) { "N".to_string() } else { hex(col.value(i).as_bytes()) });
+            }
+        }
+        s.push_str(&format!(" v={}", show_list(&vals)));
+    }
+    s
+}
+
+fn same_ok_class(a: &str, b: &str) -> bool {
+    (a == "ok") == (b == "ok")
+}
+
+fn run_json(t: &[&str], fails: &mut Vec<(String, String)>) -> String {
+    let (mode, bs, data, sizes) = (t[2], t[3].parse::<usize>().unwrap(), unhex(t[4]), parse_list::<usize>(t[5]));
+    let chunks = split(&data, &sizes);
+    let given = json_push(mode, bs, &chunks);
+    let single = json_push(mode, bs, &[&data]);
+    let mut cmp = |name: String, o: &Outcome| {
+        if !same(o, &single) {
+            fails.push((format!("{} {} != single-chunk {}", name, o.short(), single.short()), "oracle:chunk-dep".into()));
+        }
+    };
+    cmp("chunked".into(), &given);
+    let bytes: Vec<&[u8]> = data.chunks(1).collect();
+    cmp("bytewise".into(), &json_push(mode, bs, &bytes));
+    if data.len() <= 400 {
+        for i in 0..=data.len() {
+            let o = json_push(mode, bs, &[&data[..i], &data[i..]]);
+            if !same(&o, &single) {
+                cmp(format!("split@{}", i), &o);
+                break;
+            }
+        }
+    }
+    if data.len() <= 12 {
+        for p in all_partitions(data.len()) {
+            let o = json_push(mode, bs, &split(&data, &p));
+            if !same(&o, &single) {
+                cmp(format!("partition {}", show_list(&p)), &o);
+                break;
+            }
+        }
+    }
+    for b in &single.batches {
+        if b.num_rows() > bs {
+            fails.push((format!("batch of {} rows > batch_size {}", b.num_rows(), bs), "oracle:batch-size".into()));
+        }
+    }
+    // pull reader over the same chunking, and over the whole input
+    for (name, ch) in [("pull-chunked", chunks.clone()), ("pull-whole", vec![&data[..]])] {
+        let pull = json_pull(mode, bs, ch);
+        if pull.batches != single.batches || !same_ok_class(&pull.verdict, &single.verdict) {
+            fails.push((format!("{} {} != push {}", name, pull.short(), single.short()), "oracle:push-vs-pull".into()));
+        }
+    }
+    json_answer(mode, &given)
+}
+
+fn json_string(rng: &mut Rng, out: &mut Vec<u8>) {
+    out.push(b'"');
+    for _ in 0..rng.usize(5) {
+        match rng.below(12) {
+            0 => out.extend_from_slice(b"\\n"),
+            1 => out.extend_from_slice(b"\\\""),
+            2 => out.extend_from_slice(b"\\\\"),
+            3 => out.extend_from_slice(*rng.pick(&[&b"\\/"[..], b"\\b", b"\\f", b"\\r", b"\\t"])),
+            4 => out.extend_from_slice(format!("\\u{:04x}", *rng.pick(&[0x41u32, 0xe9, 0x20ac, 0x7f, 0x800, 0xffff, 0xd7ff, 0xe000, 0])).as_bytes()),
+            5 => {
+                // surrogate pair
+                let c = *rng.pick(&[0x1f600u32, 0x10000, 0x10ffff, 0x1d11e]) - 0x10000;
+                let hex_case = rng.bool();
+                let s = if hex_case {
+                    format!("\\u{:04X}\\u{:04X}", 0xd800 + (c >> 10), 0xdc00 + (c & 0x3ff))
+                } else {
+                    format!("\\u{:04x}\\u{:04x}", 0xd800 + (c >> 10), 0xdc00 + (c & 0x3ff))
+                };
+                out.extend_from_slice(s.as_bytes());
+            }
+            6 => out.extend_from_slice("é€😀".chars().nth(rng.usize(3)).unwrap().to_string().as_bytes()),
+            7 => out.extend_from_slice(*rng.pick(&[&b"{"[..], b"}", b"[", b"]", b",", b":", b" ", b"tru", b"null", b"1e5"])),
+            _ => out.push(b'a' + rng.below(26) as u8),
+        }
+    }
+    out.push(b'"');
+}
+
+fn json_number(rng: &mut Rng, out: &mut Vec<u8>) {
+    let s = match rng.below(8) {
+        0 => "0".to_string(),
+        1 => format!("{}", rng.range(-1000, 1000)),
+        2 => format!("{}.{}", rng.range(-9, 9), rng.below(100)),
+        3 => format!("{}e{}", rng.range(1, 9), rng.range(-3, 3)),
+        4 => format!("-{}.5E+{}", rng.below(10), rng.below(4)),
+        5 => "9223372036854775807".to_string(),
+        6 => "1.7976931348623157e308".to_string(),
+        _ => format!("{}", rng.below(10)),
+    };
+    out.extend_from_slice(s.as_bytes());
+}
+
+fn json_ws(rng: &mut Rng, out: &mut Vec<u8>) {
+    if rng.chance(1, 4) {
+        for _ in 0..1 + rng.usize(2) {
+            out.push(*rng.pick(&[b' ', b'\t', b'\n', b'\r']));
+        }
+    }
+}
+
+fn json_value(rng: &mut Rng, depth: usize, out: &mut Vec<u8>) {
+    let k = if depth >= 3 { rng.below(5) } else { rng.below(8) };
+    match k {
+        0 => json_string(rng, out),
+        1 => json_number(rng, out),
+        2 => out.extend_from_slice(b"true"),
+        3 => out.extend_from_slice(b"false"),
+        4 => out.extend_from_slice(b"null"),
+        5 | 6 => {
+            out.push(b'[');
+            let n = rng.usize(4);
+            for i in 0..n {
+                json_ws(rng, out);
+                json_value(rng, depth + 1, out);
+                json_ws(rng, out);
+                if i + 1 < n {
+                    out.push(b',');
+                }
+            }
+            json_ws(rng, out);
+            out.push(b']');
+        }
+        _ => json_object(rng, depth, out),
+    }
+}
+
+fn json_object(rng: &mut Rng, depth: usize, out: &mut Vec<u8>) {
+    out.push(b'{');
+    let n = rng.usize(4);
+    for i in 0..n {
+        json_ws(rng, out);
+        if depth == 0 && rng.chance(2, 3) {
+            out.extend_from_slice(format!("\"{}\"", *rng.pick(&["a", "b", "c", "d", "e", "f"])).as_bytes());
+        } else {
+            json_string(rng, out);
+        }
+        json_ws(rng, out);
+        out.push(b':');
+        json_ws(rng, out);
+        json_value(rng, depth + 1, out);
+        json_ws(rng, out);
+        if i + 1 < n {
+            out.push(b',');
+        }
+    }
+    json_ws(rng, out);
+    out.push(b'}');
+}
+
+fn gen_json(rng: &mut Rng) -> (String, String) {
+    let mode = *rng.pick(&["v", "v", "s", "s", "f"]);
+    let bs = *rng.pick(&[1usize, 2, 3, 4, 5, 1024]);
+    let mut out = vec![];
+    let mut tags = vec!["op:json".to_string(), format!("mode:{}", mode)];
+    let short = rng.chance(1, 4); // short inputs get all partitions
+    let nrows = if short { 1 + rng.usize(2) } else { rng.usize(7) };
+    let mut boundaries = vec![];
+    if mode == "f" && rng.chance(3, 4) {
+        out.push(b'[');
+        for i in 0..nrows {
+            json_ws(rng, &mut out);
+            boundaries.push(out.len());
+            if short { out.extend_from_slice(*rng.pick(&[&b"1"[..], b"\"a\"", b"null", b"true", b"\"\\n\"", b"-2"])) } else { json_value(rng, 1, &mut out) };
+            if i + 1 < nrows {
+                out.push(b',');
+            }
+        }
+        out.push(b']');
+        if rng.bool() {
+            out.push(b'\n');
+        }
+    } else {
+        for _ in 0..nrows {
+            boundaries.push(out.len());
+            if short {
+                out.extend_from_slice(*rng.pick(&[&b"1"[..], b"\"a\"", b"null", b"true", b"{}", b"[]", b"\"\\n\"", b"-2.5", b"{\"a\":1}", b"\"\\u00e9\"", b"false", b"[1]"]));
+            } else if mode == "s" {
+                json_object(rng, 0, &mut out);
+            } else {
+                json_value(rng, 0, &mut out);
+            }
+            boundaries.push(out.len());
+            match rng.below(5) {
+                0 => out.push(b' '),
+                1 => out.extend_from_slice(b"\r\n"),
+                2 if mode != "s" => out.push(b' '),
+                _ => out.push(b'\n'),
+            }
+        }
+        if rng.chance(1, 5) && !out.is_empty() {
+            out.pop(); // no trailing newline
+            tags.push("end:no-newline".into());
+        }
+    }
+    match rng.below(8) {
+        0 if !out.is_empty() => {
+            let cut = rng.usize(out.len());
+            out.truncate(cut);
+            tags.push("mut:truncated".into());
+        }
+        1 if !out.is_empty() => {
+            let i = rng.usize(out.len());
+            out[i] = *rng.pick(&[b'"', b'\\', b'{', b'}', b'[', b']', b',', b':', b'x', b'u', 0x80, 0xff, b' ', b'0', b'-', b'e', b'n', b't']);
+            tags.push("mut:corrupt".into());
+        }
+        2 => {
+            // a lone / bad surrogate or bad escape inside a string
+            let bad = *rng.pick(&[&b"\"\\ud800\""[..], b"\"\\ud800\\u0041\"", b"\"\\udc00\"", b"\"\\x\"", b"\"\\u12g4\"", b"\"\\ud800\\n\"", b"nul", b"tru ", b"-", b"1e", b"\"\xff\"", b"\"\xc3\""]);
+            out.extend_from_slice(bad);
+            out.push(b'\n');
+            tags.push("mut:bad-token".into());
+        }
+        _ => {}
+    }
+    boundaries.retain(|&b| b <= out.len());
+    let (sizes, chname) = gen_chunks(rng, out.len(), &boundaries);
+    tags.push(chname.into());
+    tags.push(format!("bs:{}", if bs > 5 { "large".to_string() } else { bs.to_string() }));
+    if out.len() <= 12 {
+        tags.push("all-partitions".into());
+    }
+    if sizes.iter().filter(|&&s| s > 0).count() >= 2 {
+        tags.push("nt".into());
+    }
+    (format!("C14 json {} {} {} {}", mode, bs, hex(&out), show_list(&sizes)), tags.join(" "))
+}
+
+// ------------------------------------------------------------------------------------------- CSV
+
+fn csv_schema(ncols: usize) -> SchemaRef {
+    let mut f = vec![];
+    for i in 0..ncols {
+        f.push(match i % 3 {
+            0 => Field::new(format!("c{}", i), DataType::Utf8, true),
+            1 => Field::new(format!("c{}", i), DataType::Int64, true),
+            _ => Field::new(format!("c{}", i), DataType::Utf8, true),
+        });
+    }
+    Arc::new(Schema::new(f))
+}
+
+fn csv_builder(bs: usize, header: bool, ncols: usize) -> arrow_csv::ReaderBuilder {
+    arrow_csv::ReaderBuilder::new(csv_schema(ncols)).with_batch_size(bs).with_header(header)
+}
+
+/// the documented push loop (see `arrow_csv::reader::Decoder`), driven by a chunk list
+fn csv_push(bs: usize, header: bool, ncols: usize, chunks: Vec<&[u8]>) -> Outcome {
+    let mut reader = ChunkedRead::new(chunks);
+    let mut d = csv_builder(bs, header, ncols).build_decoder();
+    let mut batches = vec![];
+    loop {
+        // one batch
+        let r: Result<Option<RecordBatch>, ArrowError> = (|| {
+            loop {
+                let buf = reader.fill_buf().unwrap();
+                let decoded = d.decode(buf)?;
+                reader.consume(decoded);
+                if decoded == 0 || d.capacity() == 0 {
+                    break;
+                }
+            }
+            d.flush()
+        })();
+        match r {
+            Ok(Some(b)) => batches.push(b),
+            Ok(None) => return Outcome { batches, schema: None, verdict: "ok".into() },
+            Err(_) => return Outcome { batches, schema: None, verdict: "ERR".into() },
+        }
+    }
+}
+
+fn csv_pull(bs: usize, header: bool, ncols: usize, chunks: Vec<&[u8]>, buffered: bool) -> Outcome {
+    let mut batches = vec![];
+    let mut verdict = "ok".to_string();
+    let mut take = |it: &mut dyn Iterator<Item = Result<RecordBatch, ArrowError>>| {
+        for b in it {
+            match b {
+                Ok(b) => batches.push(b),
+                Err(_) => {
+                    verdict = "ERR".into();
                     break;
                 }
             }
         }
-        println!("  push: rows {:?} err {:?} schema {} finish {:?}", rows, err, d.schema().is_some(), d.finish().map_err(|e| e.to_string()));
+    };
+    if buffered {
+        take(&mut csv_builder(bs, header, ncols).build_buffered(ChunkedRead::new(chunks)).unwrap());
+    } else {
+        take(&mut csv_builder(bs, header, ncols).build(ChunkedRead::new(chunks)).unwrap());
     }
+    Outcome { batches, schema: None, verdict }
+}
+
+fn run_csv(t: &[&str], fails: &mut Vec<(String, String)>) -> String {
+    let (bs, header, ncols, data, sizes) =
+        (t[2].parse::<usize>().unwrap(), t[3] == "1", t[4].parse::<usize>().unwrap(), unhex(t[5]), parse_list::<usize>(t[6]));
+    let chunks = split(&data, &sizes);
+    let given = csv_push(bs, header, ncols, chunks.clone());
+    let single = csv_push(bs, header, ncols, vec![&data]);
+    let mut cmp = |name: String, o: &Outcome| {
+        if !same(o, &single) {
+            fails.push((format!("{} {} != single-chunk {}", name, o.short(), single.short()), "oracle:chunk-dep".into()));
+        }
+    };
+    cmp("chunked".into(), &given);
+    cmp("bytewise".into(), &csv_push(bs, header, ncols, data.chunks(1).collect()));
+    if data.len() <= 400 {
+        for i in 0..=data.len() {
+            let o = csv_push(bs, header, ncols, vec![&data[..i], &data[i..]]);
+            if !same(&o, &single) {
+                cmp(format!("split@{}", i), &o);
+                break;
+            }
+        }
+    }
+    if data.len() <= 12 {
+        for p in all_partitions(data.len()) {
+            let o = csv_push(bs, header, ncols, split(&data, &p));
+            if !same(&o, &single) {
+                cmp(format!("partition {}", show_list(&p)), &o);
+                break;
+            }
+        }
+    }
+    for b in &single.batches {
+        if b.num_rows() > bs {
+            fails.push((format!("batch of {} rows > batch_size {}", b.num_rows(), bs), "oracle:batch-size".into()));
+        }
+    }
+    for (name, o) in [
+        ("bufreader-chunked", csv_pull(bs, header, ncols, chunks.clone(), true)),
+        ("bufreader-whole", csv_pull(bs, header, ncols, vec![&data], true)),
+        ("reader-whole", csv_pull(bs, header, ncols, vec![&data], false)),
+    ] {
+        if !same(&o, &single) {
+            fails.push((format!("{} {} != push {}", name, o.short(), single.short()), "oracle:push-vs-pull".into()));
+        }
+    }
+    let total: usize = given.rows().iter().sum();
+    format!("rows={} total={} r={}", show_list(&given.rows()), total, given.verdict)
+}
+
+fn gen_csv(rng: &mut Rng) -> (String, String) {
+    let ncols = 1 + rng.usize(3);
+    let bs = *rng.pick(&[1usize, 2, 3, 4, 5, 1024]);
+    let header = rng.chance(1, 3);
+    let short = rng.chance(1, 5);
+    let nrows = if short { 1 + rng.usize(2) } else { rng.usize(8) };
+    let mut tags = vec!["op:csv".to_string()];
+    // real writer for the values, then terminator variants
+    let schema = csv_schema(ncols);
+    let mut cols: Vec<ArrayRef> = vec![];
+    for i in 0..ncols {
+        if i % 3 == 1 {
+            cols.push(Arc::new(Int64Array::from((0..nrows).map(|_| if rng.chance(1, 5) { None } else { Some(rng.range(-99, 99)) }).collect::<Vec<_>>())));
+        } else {
+            let vals: Vec<Option<String>> = (0..nrows)
+                .map(|_| {
+                    if short {
+                        return Some((*rng.pick(&["a", "", "\"", ",", "\n", "b\r\nc", "é"])).to_string());
+                    }
+                    match rng.below(8) {
+                        0 => None,
+                        1 => Some("has,comma".into()),
+                        2 => Some("has \"quote\"".into()),
+                        3 => Some("line1\nline2".into()),
+                        4 => Some("cr\r\nlf".into()),
+                        5 => Some("".into()),
+                        6 => Some("é€😀".into()),
+                        _ => Some("x".repeat(rng.usize(5))),
+                    }
+                })
+                .collect();
+            cols.push(Arc::new(StringArray::from(vals)));
+        }
+    }
+    let batch = RecordBatch::try_new(schema.clone(), cols).unwrap();
+    let mut out = vec![];
+    {
+        let mut w = arrow_csv::WriterBuilder::new().with_header(header).build(&mut out);
+        w.write(&batch).unwrap();
+    }
+    match rng.below(4) {
+        0 => {
+            // CRLF record terminators (outside quotes only: the writer quotes embedded newlines)
+            let mut o2 = vec![];
+            let mut inq = false;
+            for &b in &out {
+                if b == b'"' {
+                    inq = !inq;
+                }
+                if b == b'\n' && !inq {
+                    o2.push(b'\r');
+                }
+                o2.push(b);
+            }
+            out = o2;
+            tags.push("term:crlf".into());
+        }
+        1 if out.last() == Some(&b'\n') => {
+            out.pop();
+            tags.push("term:none-at-end".into());
+        }
+        2 => {
+            // blank lines between records
+            let mut o2 = vec![];
+            let mut inq = false;
+            for &b in &out {
+                if b == b'"' {
+                    inq = !inq;
+                }
+                o2.push(b);
+                if b == b'\n' && !inq && rng.chance(1, 3) {
+                    o2.push(b'\n');
+                }
+            }
+            out = o2;
+            tags.push("term:blank-lines".into());
+        }
+        _ => {}
+    }
+    match rng.below(8) {
+        0 if !out.is_empty() => {
+            let cut = rng.usize(out.len());
+            out.truncate(cut);
+            tags.push("mut:truncated".into());
+        }
+        1 if !out.is_empty() => {
+            let i = rng.usize(out.len());
+            out[i] = *rng.pick(&[b'"', b',', b'\n', b'\r', b'x', 0xff, b'1']);
+            tags.push("mut:corrupt".into());
+        }
+        2 => {
+            out.extend_from_slice(b"a,b,c,d,e\n");
+            tags.push("mut:extra-fields".into());
+        }
+        _ => {}
+    }
+    let mut boundaries: Vec<usize> = out.iter().enumerate().filter(|(_, b)| **b == b'\n' || **b == b'\r' || **b == b'"').map(|(i, _)| i + 1).collect();
+    boundaries.truncate(12);
+    let (mut sizes, chname) = gen_chunks(rng, out.len(), &boundaries);
+    // an empty chunk means EOF for the CSV decoder: not a legal mid-stream call
+    sizes.retain(|&s| s > 0);
+    tags.push(chname.into());
+    tags.push(format!("bs:{}", if bs > 5 { "large".to_string() } else { bs.to_string() }));
+    if out.len() <= 12 {
+        tags.push("all-partitions".into());
+    }
+    if sizes.len() >= 2 {
+        tags.push("nt".into());
+    }
+    (format!("C14 csv {} {} {} {} {}", bs, header as u8, ncols, hex(&out), show_list(&sizes)), tags.join(" "))
+}
+
+// ------------------------------------------------------------------------------------------ main
+
+fn run_case(line: &str) -> (String, Vec<(String, String)>) {
+    let t: Vec<&str> = line.split(' ').collect();
+    assert_eq!(t[0], "C14");
+    let mut fails = vec![];
+    let line_owned = line.to_string();
+    let ans = {
+        let fails_ref = &mut fails;
+        guarded(move || {
+            let t: Vec<&str> = line_owned.split(' ').collect();
+            match t[1] {
+                "ipc" => run_ipc(&t, fails_ref),
+                "ipcx" => run_ipcx(&t, fails_ref),
+                "json" => run_json(&t, fails_ref),
+                "csv" => run_csv(&t, fails_ref),
+                _ => "bad-op".into(),
+            }
+        })
+    };
+    (ans, fails)
+}
+
+fn gen_case(rng: &mut Rng) -> (String, String) {
+    match rng.below(10) {
+        0 | 1 | 2 => gen_ipc(rng),
+        3 => gen_ipcx(rng),
+        4 | 5 | 6 => gen_json(rng),
+        _ => gen_csv(rng),
+    }
+}
+
+fn main() {
+    let args = parse_args();
+    if std::env::var("VERIF_LOUD").is_err() {
+        quiet_panics();
+    }
+    let mut sink = Sink::new(&args.out);
+    let mut emit = |sink: &mut Sink, line: String, tags: String| {
+        let (a, fails) = run_case(&line);
+        let mut tags = tags;
+        for (what, tag) in fails {
+            // the push-vs-pull difference for a pending zero-length body is tagged by the generator
+            let t = format!("{} {}", tags, tag);
+            sink.oracle_failure(line.clone(), what, &t);
+            tags = format!("{} {}", tags, tag);
+        }
+        sink.case(line, a, &tags);
+    };
+    if args.mode == "replay" {
+        for line in read_cases(args.replay.as_ref().unwrap()) {
+            emit(&mut sink, line, "replay".into());
+        }
+    } else {
+        let mut rng = Rng::new(args.seed ^ 0xC14);
+        let n = n_cases(&args, 3000, 60000);
+        for _ in 0..n {
+            let (line, tags) = gen_case(&mut rng);
+            emit(&mut sink, line, tags);
+        }
+    }
+    sink.finish();
 }
